@@ -446,3 +446,157 @@ def table_rows(plain_table, fmt):
             row[f] = col[i] if isinstance(col, list) and i < len(col) else "<absent>"
         rows.append(row)
     return rows
+
+
+# ---------------------------------------------------------------------------------------------
+# strict validator (used by C15 to judge corrupted / torn files)
+
+import re as _re
+
+_RX = {
+    "id": _re.compile(r"^[!-~]+$"),
+    "str1": _re.compile(r"^[!-~]+$"),
+    "str": _re.compile(r"^[!-~]*$"),
+    "hdr": _re.compile(r"^[ -~]+$"),
+    "int": _re.compile(r"^\+?[0-9]+$"),
+    "pos1": _re.compile(r"^\+?[0-9]+$"),
+    "sint": _re.compile(r"^[+-]?[0-9]+$"),
+    "float": _re.compile(r"^[+-]?([0-9]+(\.[0-9]*)?|\.[0-9]+)([eE][+-]?[0-9]+)?$"),
+    "optint": _re.compile(r"^(\.|\+?[0-9]+)$"),
+    "strand": _re.compile(r"^[+\-.]$"),
+    "seq": _re.compile(r"^[A-Za-z*=.]+$"),
+    "qual": _re.compile(r"^[!-~]+$"),
+    "qualstr": _re.compile(r"^[!-~]+$"),
+    "listint": _re.compile(r"^([0-9]+,)*[0-9]+,?$"),
+    "rgb": _re.compile(r"^[0-9,]+$"),
+    "score": _re.compile(r"^[!-~]+$"),
+    "phase": _re.compile(r"^[.012]$"),
+    "cigar": _re.compile(r"^(\*|([0-9]+[MIDNSHP=X])+)$"),
+    "gtfattr": _re.compile(r"^[ -~]*$"),
+}
+
+
+def split_lines(body, crlf):
+    """-> (lines without terminators, terminated: bool for the last line). body: bytes after the header"""
+    text = body.decode("latin1")
+    if text == "":
+        return [], True
+    terminated = text.endswith("\n")
+    lines = text.split("\n")
+    if terminated:
+        lines = lines[:-1]
+    out = []
+    for ln in lines:
+        if crlf and ln.endswith("\r"):
+            ln = ln[:-1]
+        out.append(ln)
+    return out, terminated
+
+
+def validate(fmt, body, style, lenient_extra=False):
+    """strict format check of the data part of a file.
+    -> ("ok", records)  where records = [{'texts':..., 'extra_cols':[...]}]  (as the model would generate them)
+    -> ("bad", line_index, reason)  zero-based line (from the start of the data) of the first offending line;
+       reason in columns | field:<name> | marker | plus | structure | length
+    lenient_extra: consistent trailing columns are accepted for every delimited format
+    """
+    lines, _ = split_lines(body, style.get("crlf"))
+    if fmt.layout == "tsv":
+        recs = []
+        ncols_first = None
+        nf = len(fmt.fields)
+        has_rest = fmt.fields[-1][1] == "rest"
+        nfixed = nf - 1 if has_rest else nf
+        for i, ln in enumerate(lines):
+            if "\r" in ln or ln == "":
+                return ("bad", i, "structure")
+            cols = ln.split("\t")
+            if has_rest:
+                if len(cols) < nfixed:
+                    return ("bad", i, "columns")
+            else:
+                if len(cols) < nfixed or (len(cols) > nfixed and not (fmt.allow_extra or lenient_extra)):
+                    return ("bad", i, "columns")
+                if ncols_first is None:
+                    ncols_first = len(cols)
+                elif len(cols) != ncols_first:
+                    return ("bad", i, "columns")
+            texts = {}
+            for (fname, kind), c in zip(fmt.fields[:nfixed], cols):
+                if not _RX[kind].match(c):
+                    return ("bad", i, "field:" + fname)
+                if kind == "pos1" and int(c) < 1:
+                    return ("bad", i, "field:" + fname)
+                texts[fname] = c
+            extra = []
+            if has_rest:
+                rest = cols[nfixed:]
+                if any(not _re.match(r"^[A-Za-z][A-Za-z0-9]:[AifZHB]:[ -~]*$", t) for t in rest):
+                    return ("bad", i, "field:" + fmt.fields[-1][0])
+                texts[fmt.fields[-1][0]] = "\t".join(rest)
+            else:
+                extra = cols[nfixed:]
+                if any(c == "" for c in extra):
+                    return ("bad", i, "field:<extra>")
+            recs.append({"texts": texts, "extra_cols": extra})
+        return ("ok", recs)
+    if fmt.layout == "fasta2":
+        recs = []
+        for i, ln in enumerate(lines):
+            if i % 2 == 0:
+                if not ln.startswith(">") or len(ln) < 2:
+                    return ("bad", i, "marker")
+            else:
+                if ln.startswith(">") or not _RX["seq"].match(ln):
+                    return ("bad", i, "structure")
+                recs.append({"texts": {"name": lines[i - 1][1:], "sequence": ln}, "extra_cols": []})
+        if len(lines) % 2:
+            return ("bad", len(lines) - 1, "structure")
+        return ("ok", recs)
+    if fmt.layout == "fastq":
+        recs = []
+        for i, ln in enumerate(lines):
+            r = i % 4
+            if r == 0 and (not ln.startswith("@") or len(ln) < 2):
+                return ("bad", i, "marker")
+            if r == 1 and not _RX["seq"].match(ln):
+                return ("bad", i, "structure")
+            if r == 2 and not ln.startswith("+"):
+                return ("bad", i, "plus")
+            if r == 3:
+                if len(ln) != len(lines[i - 2]) or not _RX["qual"].match(ln):
+                    return ("bad", i, "length")
+                recs.append({"texts": {"name": lines[i - 3][1:], "sequence": lines[i - 2], "quality": ln},
+                             "extra_cols": [], "plus": lines[i - 1]})
+        if len(lines) % 4:
+            return ("bad", len(lines) - 1, "structure")
+        return ("ok", recs)
+    if fmt.layout == "fastaw":
+        recs = []
+        cur = None
+        for i, ln in enumerate(lines):
+            if ln.startswith(">"):
+                if len(ln) < 2:
+                    return ("bad", i, "marker")
+                if cur is not None:
+                    if cur["texts"]["sequence"] == "":
+                        return ("bad", i, "structure")
+                    recs.append(cur)
+                cur = {"texts": {"name": ln[1:], "sequence": ""}, "extra_cols": []}
+            else:
+                if cur is None:
+                    return ("bad", i, "marker")
+                if not _RX["seq"].match(ln):
+                    return ("bad", i, "structure")
+                cur["texts"]["sequence"] += ln
+        if cur is not None:
+            if cur["texts"]["sequence"] == "":
+                return ("bad", len(lines) - 1, "structure")
+            recs.append(cur)
+        return ("ok", recs)
+    raise KeyError(fmt.layout)
+
+
+def column_counts(body, style):
+    lines, _ = split_lines(body, style.get("crlf"))
+    return [len(ln.split("\t")) for ln in lines]
